@@ -15,7 +15,7 @@ import numpy as np
 import pandas as pd
 
 from sim import adapters, workload
-from sim.core import EndRun, canon, np_seed
+from sim.core import EndRun, canon, documented_refusal, np_seed
 
 PROP = "C15"
 LEVEL = "fault_enumeration"
@@ -183,6 +183,8 @@ def _run_history(ctx, name, cfg, k, events, scribble_at, base=None):
             else:
                 det.update(objs[0])
         except Exception as e:  # noqa: BLE001
+            if documented_refusal(e) and base is None:
+                raise EndRun()
             if base is None:
                 ctx.violation("exception", f"C15:{name}:valid_call:{tag}:exception:{type(e).__name__}",
                               f"call {i} with container {tag}: {type(e).__name__}: {str(e)[:160]}; cfg={cfg}")
